@@ -339,3 +339,26 @@ func refCompare(ms *yang.Modules, s *model.Scenario, cp *model.Compiled) string 
 func RefCompare(ms *yang.Modules, s *model.Scenario, cp *model.Compiled) string {
 	return refCompare(ms, s, cp)
 }
+
+// noRevPair reports whether some module name occurs both with and without a
+// revision in the scenario: the input class of open finding C13-norev, which is
+// left out of every other driver's runs.
+func noRevPair(s *model.Scenario) bool {
+	if s == nil {
+		return false
+	}
+	with, without := map[string]bool{}, map[string]bool{}
+	for _, m := range s.Mods {
+		if len(m.Revs) > 0 {
+			with[m.Name] = true
+		} else {
+			without[m.Name] = true
+		}
+	}
+	for n := range with {
+		if without[n] {
+			return true
+		}
+	}
+	return false
+}
